@@ -279,7 +279,7 @@ def corr(ctx):
 
     # (a2) get_template's probed path, for every directory spelling ---------------------------------
     st = ctx.stream("corr.get_template_probe")
-    dirs = DIRS if not ctx.quick else DIRS
+    dirs = DIRS
     for d in dirs:
         nd = posixpath.normpath(d)
         sub = allu if d in ("/srv/t", ".", "/") else allu[:: 7]
